@@ -272,9 +272,11 @@ def reference(n: int, succ: list[list[int]], used: list[set], assigned: list[set
 
 # --------------------------------------------------------------------------- one case
 def analyse(cfg, entry_def: set, maybe_entry: set, inout: list[str], sch: sched.Scheduler,
-            bound: int):
+            n_vars: int):
     sched.install(sch)
-    sch.max_pops = bound
+    # bounded liveness, per analysis run over m blocks: every block value changes at most
+    # 2|V| times (lattice height) and a change re-queues at most 2m neighbours
+    sch.bound_fn = lambda m: 16 + 4 * m * m * (2 * n_vars + 2)
     try:
         cfg.analyze(set(entry_def), set(maybe_entry), list(inout))
     finally:
@@ -311,7 +313,9 @@ def run_case(ch: Choices, params: dict) -> dict:
         used = [set(stats0[bb].used) for bb in cfg.bbs]
         assigned = [set(stats0[bb].assigned) for bb in cfg.bbs]
         probes["nested_function"] = int(src.count("def ") > 1)
-        vs_n = len(set().union(*used, *assigned, entry_def))
+        # upper bound on variables of any (nested) analysis: all identifiers in the source
+        vs_n = len({n.id for n in ast.walk(ast.parse(src)) if isinstance(n, ast.Name)}
+                   | {a.arg for a in ast.walk(ast.parse(src)) if isinstance(a, ast.arg)}) + 8
     else:
         g = gen_graph(ch, params)
         mode = g["mode"]
@@ -364,7 +368,7 @@ def run_case(ch: Choices, params: dict) -> dict:
     log.add(mode, n, n_dummy, sorted(entry_def), sorted(maybe_entry), inout,
             [sorted(u) for u in used], [sorted(a) for a in assigned], succ)
 
-    bound = 4 * n * n * (2 * max(vs_n, 1) + 2) + 16
+    bound = 16 + 4 * n * n * (2 * max(vs_n, 1) + 2)
     K = params.get("K", 4)
     results = []
     schedules = []
@@ -373,7 +377,7 @@ def run_case(ch: Choices, params: dict) -> dict:
         pol = "lowest" if k == 0 else ch.pick(sched.POLICIES, "policy")
         sch = sched.Scheduler(pol, ch, starve=ch.draw(n, "starve") if pol == "starve" else 0)
         try:
-            res = analyse(cfg, entry_def, maybe_entry, inout, sch, bound)
+            res = analyse(cfg, entry_def, maybe_entry, inout, sch, max(vs_n, 1))
         except sched.NoConvergence:
             viol.append({"cls": "C09/NO_CONVERGENCE", "sig": {"mode": mode, "dummy": n_dummy > 0},
                          "expected": f"<= {bound} pops", "observed": "bound exceeded",
